@@ -116,7 +116,7 @@ def cfgs_serial(tier, rng):
     out = []
     ns = [1, 2, 3, 4, 5, 7, 8, 9, 128] if tier == "quick" else [1, 2, 3, 4, 5, 7, 8, 9, 15, 16, 17, 31, 32, 33, 63, 64, 65, 127, 128, 129, 255]
     for k, n in enumerate(ns):
-        out.append(cfgmod.make(n=n, head=k % 2, manual=(k // 2) % 2 if k % 3 else 1, limit=2, cap=2, plans=k % 2, history=(k // 2) % 2, serial=1, log="off"))
+        out.append(cfgmod.make(n=n, head=k % 2, manual=(k // 2) % 2 if k % 3 else 1, limit=2, cap=2, plans=1 if n >= 64 else k % 2, history=(k // 2) % 2, serial=1, log="off"))
     return out
 
 P_SERIAL = BASE.with_(n_ops=(10, 30), w_ops=dict(update=3, react=1, query=0, change=2, immChange=8, loadfrom=10, exit_enter=5, second_instance=6,
@@ -174,6 +174,27 @@ def guard_trees(tier):
             out.append((c, "\n".join(lines) + "\n", "enumerated"))
     return out
 
+# ---- hand-shaped histories for the plan properties: reports that stay latched across a plan step / across an exit
+def plan_templates(tier):
+    out = []
+    for (n, pay, manual) in ((3, 0, 0), (8, 0, 0), (16, 2, 1), (9, 2, 0)) if tier == "quick" else ((3, 0, 0), (8, 0, 0), (16, 2, 1), (9, 2, 0), (24, 0, 0), (17, 0, 1), (32, 2, 0)):
+        c = cfgmod.make(n=n, head=1, manual=manual, limit=2, cap=4, payload=pay, plans=1, serial=0, history=1, log="on")
+        pre = [cfgmod.cfg_line(c), "op construct 0 1 00"] + (["op enter 0"] if manual else [])
+        for (a1, a2) in ((1, 2), (n - 1, 1), (n // 2, n - 1)):
+            if len({0, a1, a2}) < 3: continue
+            # a success reported for a state that is not active yet must survive the plan step that brings the machine there
+            out.append((c, "\n".join(pre + ["op plan.append 0 0 %d" % a1, "op plan.append 0 %d %d" % (a1, a2), "op succeed 0 %d" % a1, "op succeed 0 0",
+                                             "op update 0", "op update 0", "op update 0"]) + "\n", "template:latched-success"))
+            # ... also when reported for several states at once
+            out.append((c, "\n".join(pre + ["op succeed 0 %d" % a2, "op succeed 0 %d" % a1, "op plan.append 0 0 %d" % a1, "op plan.append 0 %d %d" % (a1, a2), "op plan.append 0 %d 0" % a2,
+                                             "op succeed 0 0", "op update 0", "op update 0", "op update 0", "op update 0"]) + "\n", "template:latched-success-3"))
+            # a failure reported while no plan exists is dropped when the state is left: it must not fail a plan made later
+            out.append((c, "\n".join(pre + ["op fail 0 0", "op update 0", "op immChange 0 %d" % a1, "op plan.append 0 0 %d" % a2, "op immChange 0 0", "op update 0",
+                                             "op succeed 0 0", "op update 0"]) + "\n", "template:failure-dropped-on-exit"))
+            out.append((c, "\n".join(pre + ["op succeed 0 0", "op update 0", "op immChange 0 %d" % a1, "op plan.append 0 0 %d" % a2, "op immChange 0 0", "op update 0", "op update 0"]) + "\n",
+                        "template:success-dropped-on-exit"))
+    return out
+
 def life_cb(l): return l.kind == "cb" and l.meth in T.LIFE
 def guard_cb(l): return l.kind == "cb" and l.meth in T.GUARD
 
@@ -193,9 +214,9 @@ SPECS = {
     "C07": MachineSpec("C07", T.p_C07, P_PAY, cfgs_payloads, lambda t: 60 if t == "quick" else 300,
                        lambda ls, c: has(ls, lambda l: l.kind == "cb" and l.meth in ("enter", "reenter") and l.f.get("cur", "-")[-1:] not in ("-", ""))),
     "C08": MachineSpec("C08", T.p_C08, P_PLANS, cfgs_plans, lambda t: 80 if t == "quick" else 400,
-                       lambda ls, c: has(ls, lambda l: l.kind == "log" and l.what == "transition" and l.args[0] != "255")),
+                       lambda ls, c: has(ls, lambda l: l.kind == "log" and l.what == "transition" and l.args[0] != "255"), extra=plan_templates),
     "C09": MachineSpec("C09", T.p_C09, P_PLANS.with_(w_ops=dict(exit_enter=5, destroy_construct=2, loadfrom=1, succeed=7, fail=4), p_cond=0.4), cfgs_plans9, lambda t: 80 if t == "quick" else 400,
-                       lambda ls, c: has(ls, lambda l: l.kind == "cb" and l.meth in T.PLANCB)),
+                       lambda ls, c: has(ls, lambda l: l.kind == "cb" and l.meth in T.PLANCB), extra=plan_templates),
     "C11": MachineSpec("C11", T.p_C11, P_REPL, cfgs_replication, lambda t: 80 if t == "quick" else 400,
                        lambda ls, c: has(ls, lambda l: l.kind == "obs" and l.f.get("prev", "-") != "-")),
     "C12": MachineSpec("C12", T.p_C12, P_SERIAL, cfgs_serial, lambda t: 40 if t == "quick" else 200,
@@ -247,6 +268,7 @@ def oracle_dp(n, head, out):
         exp = ["k=%d" % k, "exitGuard=%d/%d" % (prev, prev), "entryGuard=%d/%d" % (k, k)]
         exp += ["reenter=%d/%d" % (k, k)] if prev == k else ["exit=%d/%d" % (prev, prev), "enter=%d/%d" % (k, k)]
         exp += ["%s=%d/%d" % (m, k, k) for m in ("preUpdate", "update", "postUpdate", "preReact", "react", "postReact", "query")]
+        exp += ["copy:"] + ["%s=%d/%d" % (m, k, k) for m in ("preUpdate", "update", "postUpdate", "exit")]       # a copy taken in state k, updated, destroyed
         exp += ["sid=%d" % k, "self=1", "active=%d" % k, "isActive=11"]
         if t != exp: return "changeTo(%d) with %d states: got [%s], expected [%s]" % (k, n, L[k + 1], " ".join(exp))
         prev = k
@@ -326,8 +348,17 @@ def machine_check(pid):
                          "trace; distinct non-trivial = distinct projected model traces that contain the events the property is about" % (pid, pid, pid), explanation="")
     return f
 
+def check_C12(run):
+    info = machine_check("C12")(run)
+    # "two machines produce equal buffers iff ...": SerialBuffer's own comparison operators, on buffers of one and of several bytes
+    lines = [l for l in units.gen_bitstream(run.rng, 600 if run.tier == "quick" else 4000, False) if " eq" in l]
+    unitcheck.run(run, lines, label="buffer comparison")
+    info["rule"] += "; plus StreamBufferT operator== / operator!= on rewritten buffers (unit harness)"
+    return info
+
 CHECKS = {"C10": check_C10, "C13": check_C13, "C14": check_C14, "C20": check_C20}
 for _pid in SPECS: CHECKS[_pid] = machine_check(_pid)
+CHECKS["C12"] = check_C12
 
 # ---------------------------------------------------------------------------------------------- C17
 def cfgs_copies(tier, rng):
@@ -407,10 +438,10 @@ def cfgs_san(tier, rng):
            cfgmod.make(n=2, head=1, manual=0, limit=3, cap=4, payload=2, plans=1, serial=0, history=0, log="off"),
            cfgmod.make(n=5, head=0, manual=0, limit=2, cap=1, payload=0, plans=1, serial=1, history=1, log="on", inj_state=1),
            cfgmod.make(n=8, head=1, manual=0, limit=2, cap=2, payload=0, plans=1, serial=1, history=1, log="off"),          # bit sets of exactly one byte
-           cfgmod.make(n=16, head=0, manual=1, limit=2, cap=3, payload=2, plans=1, serial=1, history=0, log="off")]
+           cfgmod.make(n=16, head=0, manual=1, limit=2, cap=3, payload=2, plans=1, serial=1, history=0, log="off"),
+           cfgmod.make(n=128, head=0, manual=1, limit=1, cap=2, payload=0, plans=0, serial=1, history=0, log="off")]              # the first state count whose serial form needs a second byte
     if tier != "quick":
-        out += [cfgmod.make(n=128, head=1, manual=1, limit=2, cap=2, payload=0, plans=1, serial=1, history=1, log="off"),     # the first state count whose serial form needs a second byte
-                cfgmod.make(n=9, head=1, manual=1, limit=4, cap=8, payload=5, plans=1, serial=1, history=1, log="on"),
+        out += [                cfgmod.make(n=9, head=1, manual=1, limit=4, cap=8, payload=5, plans=1, serial=1, history=1, log="on"),
                 cfgmod.make(n=3, head=1, manual=0, limit=8, cap=3, payload=1, plans=1, serial=1, history=1, log="off", inj_root=2, inj_state=2),
                 cfgmod.make(n=64, head=1, manual=1, limit=2, cap=2, payload=3, plans=1, serial=1, history=1, log="off"),
                 cfgmod.make(n=255, head=0, manual=1, limit=2, cap=255, payload=0, plans=1, serial=1, history=1, log="off")]
